@@ -146,11 +146,16 @@ func (m MIC) MarshalText() ([]byte, error) {
 type MHDR struct {
 	MType MType `json:"mType"`
 	Major Major `json:"major"`
+
+	// rfu holds the RFU bits (4..2) of a received MHDR. A receiver ignores
+	// their meaning, but they are part of the bytes the MIC was calculated
+	// over, so they must survive decoding and re-encoding.
+	rfu uint8
 }
 
 // MarshalBinary marshals the object in binary form.
 func (h MHDR) MarshalBinary() ([]byte, error) {
-	return []byte{(byte(h.MType) << 5) | (byte(h.Major) & 0x03)}, nil
+	return []byte{(byte(h.MType) << 5) | ((h.rfu & 0x07) << 2) | (byte(h.Major) & 0x03)}, nil
 }
 
 // UnmarshalBinary decodes the object from binary form.
@@ -159,6 +164,7 @@ func (h *MHDR) UnmarshalBinary(data []byte) error {
 		return errors.New("lorawan: 1 byte of data is expected")
 	}
 	h.MType = MType(data[0] >> 5)
+	h.rfu = (data[0] >> 2) & 0x07
 	h.Major = Major(data[0] & 0x03)
 	return nil
 }
